@@ -326,12 +326,23 @@ func genExt(r *hv.Rng, server bool) []byte {
 		} else {
 			p = []byte{byte(pickInt(r, 1, 1, 0, 2)), 0, 0, 0, 0}
 		}
-	case id == 10 || id == 13:
+	case id == 10 || id == 13: // inner length equal / larger / smaller (trailing bytes inside the extension)
 		n := 2 * r.Range(0, 4)
-		p = append(u16b(n+pickInt(r, 0, 0, 0, 1, 2)), r.Bytes(n)...)
+		d := pickInt(r, 0, 0, 0, 1, 2, -2, -2, -1)
+		if n+d < 0 {
+			d = 0
+		}
+		p = append(u16b(n+d), r.Bytes(n)...)
+		if r.Chance(1, 5) { // odd payload with a consistent inner length
+			p = append(u16b(n+1), r.Bytes(n+1)...)
+		}
 	case id == 11:
 		n := r.Range(0, 3)
-		p = append([]byte{byte(n + pickInt(r, 0, 0, 0, 1))}, r.Bytes(n)...)
+		d := pickInt(r, 0, 0, 0, 1, -1)
+		if n+d < 0 {
+			d = 0
+		}
+		p = append([]byte{byte(n + d)}, r.Bytes(n)...)
 	case id == 35:
 		if !server {
 			p = r.Bytes(blen(r, 20))
@@ -367,7 +378,12 @@ func genHello(r *hv.Rng, server bool) []byte {
 		if n > 0 && r.Chance(1, 4) {
 			cs[2*n-2], cs[2*n-1] = 0, 0xff
 		}
-		body = append(body, u16b(2*n+pickInt(r, 0, 0, 0, 0, 0, 1, -1))...)
+		if r.Chance(1, 8) { // an odd number of suite bytes, otherwise consistent
+			cs = r.Bytes(2*n + 1)
+			body = append(body, u16b(2*n+1)...)
+		} else {
+			body = append(body, u16b(2*n+pickInt(r, 0, 0, 0, 0, 0, 1, -1))...)
+		}
 		body = append(body, cs...)
 		cm := r.Bytes(r.Range(0, 2))
 		body = append(body, byte(len(cm)))
@@ -378,7 +394,11 @@ func genHello(r *hv.Rng, server bool) []byte {
 		for k := r.Range(0, 5); k > 0; k-- {
 			exts = append(exts, genExt(r, server)...)
 		}
-		body = append(body, u16b(len(exts)+pickInt(r, 0, 0, 0, 0, 0, 0, 0, 1, -1))...)
+		if r.Chance(1, 4) { // a known extension with an EMPTY payload as the very last bytes of the message
+			exts = append(exts, u16b(pickInt(r, 5, 11, 0xff01, 0, 10, 13, 16, 35, 13172))...)
+			exts = append(exts, 0, 0)
+		}
+		body = append(body, u16b(len(exts)+pickInt(r, 0, 0, 0, 0, 0, 0, 0, 0, 0, 1, -1))...)
 		body = append(body, exts...)
 	}
 	ty := byte(1)
@@ -412,7 +432,7 @@ func mutate(r *hv.Rng, b []byte) []byte {
 }
 
 func gen(r *hv.Rng, i int, tier string) (string, hv.Val) {
-	if i%150 == 7 {
+	if i%300 == 7 {
 		return genBig(r)
 	}
 	mt := mts[r.Intn(len(mts))]
